@@ -495,8 +495,12 @@ class ThreadPool(object):
                         # Call the method
                         future.execute(method, args, kwargs)
                     except Exception as ex:
+                        # The task might not be a function
+                        # (functools.partial, callable object, ...)
                         self._logger.exception(
-                            "Error executing %s: %s", method.__name__, ex
+                            "Error executing %s: %s",
+                            getattr(method, "__name__", repr(method)),
+                            ex,
                         )
                     finally:
                         # Mark the action as executed
